@@ -223,4 +223,14 @@ class ArrList:
         raise EngineError("ArrList +")
 
     def method(self, interp, name, args, kwargs):
+        if name == "append":
+            if not (isinstance(self.off, int) and self.off == 0):
+                raise EngineError("append on an ArrList view")
+            self.arr = z3.Store(self.arr, _z(self.len), _z(args[0]))
+            self.len = self.len + 1
+            return None
         raise EngineError("ArrList.%s" % name)
+
+    def select(self, i):
+        """A[off + i] without bounds checks (for specifications)"""
+        return mks(z3.Select(self.arr, _z(self.off + i)))
